@@ -47,6 +47,7 @@ func WaitThreads()                              { panic("symbolic only") }
 func ThreadID() int                             { panic("symbolic only") }
 func ExpectPanic(label string)                  { panic("symbolic only") }
 func Ite(c bool, a, b int) int                  { panic("symbolic only") }
+func Ite64(c bool, a, b int64) int64            { panic("symbolic only") }
 func IteStr(c bool, a, b string) string         { panic("symbolic only") }
 func Implies(a, b bool) bool                    { panic("symbolic only") }
 func And(a, b bool, more ...bool) bool          { panic("symbolic only") }
@@ -59,6 +60,8 @@ func ErrorNew(msg string) error                 { panic("symbolic only") }
 func CtxCancelled(ctx interface{}) bool         { panic("symbolic only") }
 func CtxDeadline(ctx interface{}) (int64, bool) { panic("symbolic only") }
 func Now() int64                                { panic("symbolic only") }
+func SymbolicTime()                             { panic("symbolic only") }
+func AdvanceTo(t int64)                         { panic("symbolic only") }
 func BufString(buf interface{}) string          { panic("symbolic only") }
 func Opaque(name string) string                 { panic("symbolic only") }
 `
@@ -297,7 +300,7 @@ func (e *Engine) rtCall(c *CallCtx) (Value, bool) {
 		return nil, false
 	case "ThreadID":
 		return ts.Int(int64(st.cur)), true
-	case "Ite":
+	case "Ite", "Ite64":
 		return ts.Ite(c.args[0].(*Term), c.args[1].(*Term), c.args[2].(*Term)), true
 	case "IteStr":
 		return ts.Ite(c.args[0].(*Term), c.args[1].(*Term), c.args[2].(*Term)), true
@@ -337,6 +340,18 @@ func (e *Engine) rtCall(c *CallCtx) (Value, bool) {
 		return TupleV{d, ok}, true
 	case "Now":
 		return e.now(st), true
+	case "SymbolicTime":
+		st.ghost["symtime"] = ts.T
+		return nil, true
+	case "AdvanceTo":
+		// the clock has reached at least t
+		t := c.args[0].(*Term)
+		last, ok := st.ghost["now"].(*Term)
+		if !ok {
+			last = ts.Int(1)
+		}
+		st.ghost["now"] = ts.Ite(ts.BvCmp(OBvSlt, last, t), t, last)
+		return nil, true
 	case "BufString":
 		iv := c.args[0].(IfaceV)
 		p := iv.Alts[0].V.(Ptr)
